@@ -370,7 +370,7 @@ def summaries(t, m, report):
         os.unlink(src)
 
 
-def starts():
+def starts(loaded=True):
     """the common start tables plus one whose ids look like format directives / report syntax"""
     from biom import Table
     from ..model import M
@@ -380,11 +380,13 @@ def starts():
     omd = [{'k': '50%'}, {'k': '%s'}]
     S['oddids2x3'] = (lambda: Table(np.array(D, float), list(o), list(c), [dict(e) for e in omd], None),
                       M(o, c, D, omd, None))
+    if loaded:
+        S.update(OPS.loaded_start_tables())      # tables read from a file (thorough tier)
     return S
 
 
-def spec(depth):
-    return E.Spec(starts(), OPS.all_ops(), depth, check_ops=(), on_state=summaries,
+def spec(depth, loaded=True):
+    return E.Spec(starts(loaded), OPS.all_ops(), depth, check_ops=(), on_state=summaries,
                   label='d%d' % depth)
 
 
@@ -394,7 +396,7 @@ def run(run):
     depth = 2 if run.quick else 3
     _TMP = tempfile.mkdtemp(prefix='verif-c19-')
     try:
-        info = E.explore(run, spec(depth))
+        info = E.explore(run, spec(depth, loaded=not run.quick))
     finally:
         shutil.rmtree(_TMP, ignore_errors=True)
         _TMP = None
